@@ -178,12 +178,22 @@ def _flip_sig(sig, part, n, state):
     name = rd.string()
     rest = rd.rest()
     regions = {"name-len": (0, 4), "name": (4, len(name)), "blob-len": (4 + len(name), 4), "blob": (8 + len(name), max(0, len(rest) - 4))}
+    regions["ecdsa-s-len"] = regions["blob"]
     off, ln = regions[part]
     if ln == 0 or off + ln > len(sig):
         return _flip(sig, n)
     new = sig[:off] + _flip(sig[off : off + ln], n) + sig[off + ln :]
     if part == "blob-len":
         state["blob_len_increased"] = int.from_bytes(new[off : off + 4], "big") > int.from_bytes(sig[off : off + 4], "big")
+    if part in ("blob", "ecdsa-s-len") and name.startswith(b"ecdsa-"):
+        # inner structure of an ECDSA blob: mpint r, mpint s
+        blob = rest[4:]
+        r_len = int.from_bytes(blob[:4], "big")
+        s_off = off + 4 + r_len
+        if part == "ecdsa-s-len":
+            new = sig[:s_off] + _flip(sig[s_off : s_off + 4], n) + sig[s_off + 4 :]
+        if new[s_off : s_off + 4] != sig[s_off : s_off + 4]:
+            state["ecdsa_s_len_increased"] = int.from_bytes(new[s_off : s_off + 4], "big") > int.from_bytes(sig[s_off : s_off + 4], "big")
     return new
 
 
@@ -338,6 +348,8 @@ def run_fault(ctx, case):
         # one root cause whatever the kex: the length prefix of the inner signature string was made
         # larger than the data that follows (see known_findings.d/C06.json)
         bucket = "flip:sig:blob-length-increased/%s" % ktype
+    if state.get("ecdsa_s_len_increased"):
+        bucket = "flip:sig:ecdsa-s-length-increased"  # same leniency one level deeper (ECDSAKey._sigdecode)
     sent_newkeys = 21 in m.types("c2s")
     if ce is None or done or sent_newkeys:
         what = "accepted" if ce is None else ("initial_kex_done" if done else "sent-NEWKEYS")
@@ -353,7 +365,7 @@ def fault_st(kex_st):
     n = st.integers(0, 2**40)
     flip = st.one_of(
         st.fixed_dictionaries({"kind": st.just("flip"), "field": st.sampled_from(["k_s", "pub"]), "n": n}),
-        st.fixed_dictionaries({"kind": st.just("flip"), "field": st.just("sig"), "part": st.sampled_from(["name-len", "name", "blob-len", "blob", "blob", "blob"]), "n": n}),
+        st.fixed_dictionaries({"kind": st.just("flip"), "field": st.just("sig"), "part": st.sampled_from(["name-len", "name", "blob-len", "ecdsa-s-len", "blob", "blob", "blob"]), "n": n}),
     )
     pub = st.fixed_dictionaries({"kind": st.just("pub"), "n": st.integers(0, 2**1000), "seed": st.binary(min_size=8, max_size=16)})
     sigalg = st.fixed_dictionaries({"kind": st.just("sigalg"), "name": st.sampled_from(SIGNAMES)})
